@@ -123,7 +123,7 @@ func bigResult(fn string, args []poolVal) bool {
 			return f
 		}
 		if t, ok := p.v.(*types.XText); ok {
-			if d, err := decimal.NewFromString(t.Native()); err == nil {
+			if d, err := decimal.NewFromString(strings.TrimSpace(t.Native())); err == nil { // the engine trims before converting
 				f, _ := d.Abs().Float64()
 				return f
 			}
@@ -257,6 +257,27 @@ func c04Total(args []string) error {
 			reduced = append(reduced, pool[i])
 		}
 	}
+	var shapes []poolVal
+	for _, lead := range []string{"", "+", "-", ".", " ", "@", "#", "%", ":", ",", "tel:+", "\\", "\"", "é", "😀", "0", "\n", "(", "{", "$"} {
+		for _, body := range []string{"1234567890123", "abcdefghijklm"} {
+			for k := 0; k <= 13; k++ {
+				if lead == "" && k == 0 {
+					continue
+				}
+				t := lead + body[:k]
+				// a text that reads as a number of six or more digits is a huge magnitude wherever a count is expected
+				isHuge := func(t string) bool {
+					d, err := decimal.NewFromString(strings.TrimSpace(t))
+					return err == nil && d.Abs().GreaterThanOrEqual(decimal.New(1, 5))
+				}
+				shapes = append(shapes, poolVal{fmt.Sprintf("%q", t), types.NewXText(t), isHuge(t), len(t)})
+				if k > 0 && k%4 == 0 {
+					t2 := t + lead // the lead-in also as a tail
+					shapes = append(shapes, poolVal{fmt.Sprintf("%q", t2), types.NewXText(t2), isHuge(t2), len(t2)})
+				}
+			}
+		}
+	}
 	callOne := func(e entry, tuple []poolVal) {
 		if g.leaked > 12 {
 			return
@@ -324,6 +345,19 @@ func c04Total(args []string) error {
 		for _, a := range reduced[:4] {
 			callOne(e, []poolVal{a, a, reduced[2], reduced[1]})
 			callOne(e, []poolVal{a, reduced[3], a, reduced[0], reduced[1]})
+		}
+		// shaped texts: a lead-in (sign, separator, scheme, quote, multi-byte character ...) followed by 0..13 digits or
+		// letters, alone and at each of the first three argument positions next to small values - string handling that
+		// strips or skips a lead-in and then counts on the remaining length has its boundary somewhere in here
+		for _, sh := range shapes {
+			callOne(e, []poolVal{sh})
+			for _, o := range []poolVal{pool[1], pool[4], pool[14], pool[13]} {
+				callOne(e, []poolVal{sh, o})
+				callOne(e, []poolVal{o, sh})
+				callOne(e, []poolVal{sh, o, o})
+				callOne(e, []poolVal{o, o, sh})
+			}
+			callOne(e, []poolVal{sh, sh})
 		}
 	}
 	// ---- operators on every pair, through the evaluator -----------------------------------------
